@@ -36,10 +36,10 @@ import (
 	ddkls "verif/harness/internal/drive/dkls23"
 	dgen "verif/harness/internal/drive/gennaro"
 	dhjky "verif/harness/internal/drive/hjky"
-	dl17 "verif/harness/internal/drive/lindell17"
-	dredist "verif/harness/internal/drive/redistribute"
 	"verif/harness/internal/drive/keys"
+	dl17 "verif/harness/internal/drive/lindell17"
 	dl22 "verif/harness/internal/drive/lindell22"
+	dredist "verif/harness/internal/drive/redistribute"
 	dsess "verif/harness/internal/drive/session"
 	"verif/harness/internal/vh"
 )
@@ -59,7 +59,7 @@ type outcome struct {
 	// judge evaluates clause (c) for the honest parties (all but dev; dev == 0: everybody is
 	// honest) and returns the failures and the list of honest parties / aggregator (0) that
 	// returned a result.
-	judge func(dev sharing.ID) (bad []finding, returned []sharing.ID)
+	judge  func(dev sharing.ID) (bad []finding, returned []sharing.ID)
 	forget func()
 }
 
@@ -72,8 +72,9 @@ type adapter struct {
 	// recipient would get and re-encodes it (nil if they do not decode): altered bytes whose norm
 	// equals the original bytes are the SAME message for the recipient (a semantic no-op, e.g. a
 	// byte string longer than the fixed-size array it is decoded into).
-	norm func(round int, bcast bool, b []byte) []byte
-	noParallel bool // skip the parallel-session run (expensive protocols)
+	norm       func(round int, bcast bool, b []byte) []byte
+	noParallel bool     // skip the parallel-session run (expensive protocols)
+	first      []string // fields whose value flips are scheduled first (small quotas)
 }
 
 func normAs[M any](b []byte) []byte {
@@ -186,7 +187,8 @@ func adapters(tier string) []*adapter {
 		}},
 		{name: "dkls23", modelled: true, run: func(seed int64, label string, hook drive.Hook) *outcome {
 			return runDkls(seed, label, hook, "bbot", dklsQuorum)
-		}, norm: func(r int, bc bool, b []byte) []byte {
+		}, first: []string{"gammaU.compressedBytes", "psi.fieldBytes", "pk.compressedBytes", "bigR.compressedBytes", "mulR3.mu",
+			"mulR2.OtR2.phi.compressedBytes", "u.fieldBytes", "gammaV.compressedBytes", "mulR1.OtR1.ms.compressedBytes"}, norm: func(r int, bc bool, b []byte) []byte {
 			switch {
 			case r == 1 && bc:
 				return normAs[*signing_bbot.Round1Broadcast[kP, kB, kS]](b)
